@@ -45,6 +45,7 @@ import AgVerif.Proof.DexXBuild
 import AgVerif.Proof.DexXInits
 import AgVerif.Proof.DexXExample
 import AgVerif.Proof.DexXDebug
+import AgVerif.Proof.DexXExampleR
 namespace AgVerif.C05
 open AgVerif.DexFile AgVerif.Spec.Leb
 open AgVerif.Spec.DexFile (ushort uint ULeb protoId fieldId methodId classDef typeListBody codeHdr EncFields EncMethods EncClassData diffs undiffs Ascending)
@@ -638,6 +639,21 @@ example : exampleDebug.WF :=
      · exact ⟨by decide, by decide, by intro a ha; cases ha⟩)⟩
 example : exampleDebug.bytes = [5, 1, 1, 1, 3, 2, 0x7f, 0x0a, 0] ∧
     decDebugInfo [5, 1, 1, 1, 3, 2, 0x7f, 0x0a, 0] = some (⟨5, [0], [⟨1, [3]⟩, ⟨2, [-1]⟩, ⟨10, []⟩, ⟨0, []⟩]⟩, []) := by
+  decide +kernel
+
+/-- … and on the layout of a real writer: a 660-byte DEX written by harness/dexasm.py (abstract class
+    `LFoo;`, static fields `X : I = 7`, `S : Ljava/lang/String; = "hi"`, `Z : Z` without a value, class
+    annotations `@Ljava/lang/Deprecated;` and `@LAnn;(value = 300, on = true)`, a field annotation on `X`)
+    encodes well-formed extended tables (Proof/DexXExampleR.lean, generated by harness/c05_mkexamplex.py), so
+    `parse_encode_static_values` / `parse_encode_annotations` apply to it, and what it declares is: -/
+example : WFX ExampleR.TX ExampleR.L ∧ EncodesX ExampleR.file ExampleR.L ExampleR.TX := ⟨ExampleR.wf, ExampleR.encodes⟩
+example : parseDexX ExampleR.file = .ok (declaredX ExampleR.TX ExampleR.L) :=
+  parse_encode_static_values _ _ _ ExampleR.wf ExampleR.encodes
+example : (declaredX ExampleR.TX ExampleR.L).classes.map (fun c => c.inits.map (·.bind ExampleR.valInt)) = [[none, some 7, none]] ∧
+    (declaredX ExampleR.TX ExampleR.L).classes.map (fun c => c.inits.map (·.bind ExampleR.valRef)) = [[some ["hi"], none, none]] ∧
+    (declaredX ExampleR.TX ExampleR.L).classes.map (·.annotations) = [[ascii "LAnn;", ascii "Ljava/lang/Deprecated;"]] ∧
+    (declaredX ExampleR.TX ExampleR.L).classes.map (fun c => c.annDir.map (fun d => (d.fields.length, d.methods.length))) =
+      [some (1, 0)] := by
   decide +kernel
 
 end AgVerif.C05
